@@ -47,7 +47,7 @@ Fixpoint set_nth {A} (n : nat) (x : A) (l : list A) : list A :=
 Fixpoint compose_node (fuel : nat) (base : bool) (s : cst) : lres (nat * cst) :=
   match fuel with O => LFuel | S f =>
     match evs s with
-    | [] => LCrash XAttributeError
+    | [] => LScan OutOfFuel
     | e :: rest_ =>
       match e_kind e with
       | VAlias a =>
@@ -72,7 +72,7 @@ Fixpoint compose_node (fuel : nat) (base : bool) (s : cst) : lres (nat * cst) :=
           (fix items (fuel' : nat) (acc : list nat) (s : cst) : lres (nat * cst) :=
              match fuel' with O => LFuel | S f' =>
                match evs s with
-               | [] => LCrash XAttributeError
+               | [] => LScan OutOfFuel
                | e' :: r' =>
                  match e_kind e' with
                  | VSeqEnd => LOk (id, {| evs := r'; store := set_nth id {| n_tag := t; n_kind := NSeq acc; n_start := e_start e |} (store s); anchors := anchors s |})
@@ -93,7 +93,7 @@ Fixpoint compose_node (fuel : nat) (base : bool) (s : cst) : lres (nat * cst) :=
           (fix items (fuel' : nat) (acc : list (nat * nat)) (s : cst) : lres (nat * cst) :=
              match fuel' with O => LFuel | S f' =>
                match evs s with
-               | [] => LCrash XAttributeError
+               | [] => LScan OutOfFuel
                | e' :: r' =>
                  match e_kind e' with
                  | VMapEnd => LOk (id, {| evs := r'; store := set_nth id {| n_tag := t; n_kind := NMap acc; n_start := e_start e |} (store s); anchors := anchors s |})
@@ -108,7 +108,7 @@ Fixpoint compose_node (fuel : nat) (base : bool) (s : cst) : lres (nat * cst) :=
                  end
                end
              end) f [] s1
-      | _ => LCrash XAttributeError
+      | _ => LScan OutOfFuel
       end
     end
   end.
@@ -637,7 +637,7 @@ Fixpoint docs_loop (fuel : nat) (base : bool) (evs_ : list event) (acc : list do
       | VDocStart _ _ _ =>
           match compose_node (S (length evs_)) base {| evs := rest_; store := []; anchors := [] |} with
           | LOk (root, cs) =>
-              match evs cs with [] => (acc, LCrash XAttributeError) | _ =>
+              match evs cs with [] => (acc, LScan OutOfFuel) | _ =>
               let k0 := {| nodes := store cs; hp := []; cache := []; recursive := []; gens := [] |} in
               let fuel2 := S (length (store cs)) * 4 + 8 in
               match (v <== construct_object fuel2 base root ;; _ <== drain (S (length (store cs)) * 2) ;; kret v) k0 with
@@ -646,7 +646,7 @@ Fixpoint docs_loop (fuel : nat) (base : bool) (evs_ : list event) (acc : list do
               end end
           | r => lift_err acc r
           end
-      | _ => (acc, LCrash XAttributeError)
+      | _ => (acc, LScan OutOfFuel)
       end
     | [] => (acc, LOk tt)
     end
@@ -660,7 +660,7 @@ Definition load_all (base : bool) (text : str) : list doc_result * lres unit :=
       (* documents completed before the scanner/parser error are still delivered *)
       match docs_loop (S (length evs_)) base evs_ [] with
       | (acc, LOk _) => (acc, LScan r)
-      | (acc, LCrash XAttributeError) => (acc, LScan r)      (* ran out of events inside a document *)
+      | (acc, LScan OutOfFuel) => (acc, LScan r)      (* ran out of events inside a document (marker: docs_loop never scans) *)
       | other => other
       end
   end.
